@@ -320,10 +320,12 @@ var names = []string{"Foo", "Foo/size=4k", "Foo/size=4k/kind=a-8", "Bar-16", "Ba
 	// a dash that is not followed by digits belongs to the name
 	"Parse/kind=-", "Trim-", "Foo/kind=a--8", "X/size=-/kind=-", "Foo/size=4k-", "Bar--", "Foo/kind=-8"}
 var cfgKeys = []string{"goos", "pkg", "a", ".file", "note", "cpu/model", "a/size"}
-var cfgVals = []string{"linux", "darwin", "x y", "1", "p/q", "é", "-v", "*", "a:b", "(x)", "AND"}
+var cfgVals = []string{"linux", "darwin", "x y", "1", "p/q", "é", "-v", "*", "a:b", "(x)", "AND", `C:\`, `a\b\`, `\`, `q"t`}
 var safeRegexps = []string{"^F", "oo$", "4k|1M", "^$", ".", "[a-f]+", "^(linux|darwin)$", "s.c", "B", "^[0-9]+$", "x y", "^ns", "^MB", "ns.op$", "^sec", "^9", "9",
 	// a delimiter inside a class, a group or behind a backslash does not end the expression; an unmatched ']' is an ordinary character
-	"[/]op", "(s/o|B/o)p$", `c\/op`, "x][/]y", "^[^/]*$", "^[[:alpha:]/]+$"}
+	"[/]op", "(s/o|B/o)p$", `c\/op`, "x][/]y", "^[^/]*$", "^[[:alpha:]/]+$",
+	// a parenthesis inside a class is an ordinary character, not a group
+	"[(]x[)]", "^F[(o]", "[()]", "^[^(]+$", "[)]", `\(x\)`, "[(]"}
 
 func keysFor(name string) []string {
 	ks := []string{".name", ".fullname", "/gomaxprocs", "/size", "/kind", "/absent"}
